@@ -1026,11 +1026,7 @@ pub fn gc_table(c: &SCase) -> Vec<f64> {
     match inner_target(c) {
         None => vec![],
         Some(t) if t < c.coords.len() => {
-            let tc = geo_coord(c.coords[t]);
-            c.coords
-                .iter()
-                .map(|p| haversine::coord_distance_meters(&geo_coord(*p), &tc).map(|d| d.as_f64()).unwrap_or(f64::NAN))
-                .collect()
+            c.coords.iter().map(|p| gc_entry(*p, c.coords[t])).collect()
         }
         Some(_) => vec![],
     }
@@ -1045,6 +1041,16 @@ pub fn gc_f64(a: (f32, f32), b: (f32, f32)) -> f64 {
     let d_lon = (bx - ax).to_radians();
     let h = (d_lat / 2.0).sin().powi(2) + (d_lon / 2.0).sin().powi(2) * lat1.cos() * lat2.cos();
     6_371_000.0 * 2.0 * h.sqrt().asin()
+}
+
+/// what the great-circle table of a case line holds when the haversine function returns `Err` (a
+/// coordinate out of range or NaN): the model's marker "no great-circle value" — any negative entry
+/// (lean/Compass/Model/Instance.lean, `estimate`); a great-circle distance itself is >= 0 or NaN
+pub const GC_NONE: f64 = -1.0;
+
+/// one entry of a great-circle table: metres from `a` to `b` by the real haversine code, or the marker
+pub fn gc_entry(a: (f32, f32), b: (f32, f32)) -> f64 {
+    haversine::coord_distance_meters(&geo_coord(a), &geo_coord(b)).map(|d| d.as_f64()).unwrap_or(GC_NONE)
 }
 
 pub fn gc_between(a: (f32, f32), b: (f32, f32)) -> f64 {
